@@ -155,6 +155,20 @@ Theorem C14_getattr_fields :
   /\ getattr st s_debian_version = Some (st_rev st).
 Proof. exact getattr_fields. Qed.
 
+(** the regex leaf on its own (what the CLeaf cases compare with the live pattern): the
+    lazy upstream group followed by the optional revision group cuts at the LAST hyphen
+    when both sides are well-formed, and otherwise takes everything *)
+Theorem C14_regex_leaf_upstream :
+  forall t, match_up t =
+    match cut_last HYPHEN t with
+    | Some (u, r) =>
+        if nonempty u && forallb is_up_char u && nonempty r && forallb is_rev_char r
+        then Some (u, Some r)
+        else if forallb is_up_char t then Some (t, None) else None
+    | None => if nonempty t && forallb is_up_char t then Some (t, None) else None
+    end.
+Proof. exact match_up_eq. Qed.
+
 (** * 4. the bridge to the run-time check *)
 
 (** For EVERY case (any string, any assignment sequence): if the implementation's
@@ -228,4 +242,5 @@ Print Assumptions C14_setattr_is_spec.
 Print Assumptions C14_assigns_ok_or_rollback.
 Print Assumptions C14_assigns_preserve_inv.
 Print Assumptions C14_getattr_fields.
+Print Assumptions C14_regex_leaf_upstream.
 Print Assumptions C14_agree_implies_holds.
